@@ -40,6 +40,10 @@ impl PathSyntax for SvgPathSyntax {
         self.data.get(self.index).copied()
     }
 
+    fn peek(&self, offset: usize) -> Option<char> {
+        self.data.get(self.index + offset).copied()
+    }
+
     fn advance(&mut self) {
         self.index += 1;
     }
@@ -52,6 +56,8 @@ impl PathSyntax for SvgPathSyntax {
 pub trait PathSyntax {
     fn at_command(&self) -> Result<bool>;
     fn current(&self) -> Option<char>;
+    /// Look ahead `offset` characters from the current one without advancing
+    fn peek(&self, offset: usize) -> Option<char>;
     fn advance(&mut self);
     fn at_end(&self) -> bool;
 
@@ -79,19 +85,63 @@ pub trait PathSyntax {
         }
     }
 
+    /// Read a number as defined by the SVG path data grammar:
+    /// `sign? (digit+ ('.' digit*)? | '.' digit+) ([eE] sign? digit+)?`
+    ///
+    /// Note numbers need no separator where the next character cannot continue
+    /// the current one, e.g. `10-20` or `1.5.5` are each two numbers.
     fn read_number(&mut self) -> Result<f32> {
         self.check_not_end()?;
         let mut s = String::new();
+        if let Some(ch @ ('+' | '-')) = self.current() {
+            s.push(ch);
+            self.advance();
+        }
+        let mut seen_dot = false;
         while let Some(ch) = self.current() {
-            if ch.is_ascii_digit() || ch == '.' || ch == '-' {
+            if ch.is_ascii_digit() || (ch == '.' && !seen_dot) {
+                seen_dot = seen_dot || ch == '.';
                 s.push(ch);
                 self.advance();
             } else {
                 break;
             }
         }
+        if let Some(e @ ('e' | 'E')) = self.current() {
+            // only an exponent if followed by (optionally signed) digits
+            let mut exp = String::from(e);
+            let mut offset = 1;
+            if let Some(sign @ ('+' | '-')) = self.peek(offset) {
+                exp.push(sign);
+                offset += 1;
+            }
+            if self.peek(offset).is_some_and(|c| c.is_ascii_digit()) {
+                while let Some(d) = self.peek(offset).filter(|c| c.is_ascii_digit()) {
+                    exp.push(d);
+                    offset += 1;
+                }
+                s.push_str(&exp);
+                for _ in 0..offset {
+                    self.advance();
+                }
+            }
+        }
         self.skip_wsp_comma();
         Ok(s.parse()?)
+    }
+
+    /// Read an arc flag: a single `0` or `1`, which needs no separator from
+    /// whatever follows (e.g. `a1 1 0 01 2 3`).
+    fn read_flag(&mut self) -> Result<f32> {
+        self.check_not_end()?;
+        let flag = match self.current() {
+            Some('0') => 0.,
+            Some('1') => 1.,
+            _ => return Err(SvgdxError::ParseError("Invalid arc flag".to_string())),
+        };
+        self.advance();
+        self.skip_wsp_comma();
+        Ok(flag)
     }
 
     fn read_coord(&mut self) -> Result<(f32, f32)> {
@@ -240,8 +290,8 @@ impl PathParser {
                 // "(rx ry x-axis-rotation large-arc-flag sweep-flag x y)+"
                 let _rxy = self.tokens.read_coord()?;
                 let _xar = self.tokens.read_number()?;
-                let _laf = self.tokens.read_number()?;
-                let _sf = self.tokens.read_number()?;
+                let _laf = self.tokens.read_flag()?;
+                let _sf = self.tokens.read_flag()?;
                 let xy = self.tokens.read_coord()?;
                 self.update_position(xy);
             }
@@ -249,8 +299,8 @@ impl PathParser {
                 // "(rx ry x-axis-rotation large-arc-flag sweep-flag x y)+"
                 let _rxy = self.tokens.read_coord()?;
                 let _xar = self.tokens.read_number()?;
-                let _laf = self.tokens.read_number()?;
-                let _sf = self.tokens.read_number()?;
+                let _laf = self.tokens.read_flag()?;
+                let _sf = self.tokens.read_flag()?;
                 let (dx, dy) = self.tokens.read_coord()?;
                 let (cpx, cpy) = self.position.unwrap_or((0., 0.));
                 self.update_position((cpx + dx, cpy + dy));
